@@ -127,8 +127,13 @@ def judge(ctx, prog, r, stats):
         pyrows = r['py'][0]
         d = L.first_diff(pyrows, prog.trace, start=start)
         if d is not None:
-            return ('tie', {'what': 'PySem (g_all) disagrees with the real simulator: the source-side model or the dumper is not faithful',
-                            'row': d[0], 'column': d[1], 'pysem': d[2], 'real': d[3]})
+            # a concrete history on which the real execution of the Python method leaves Python's own semantics (PySem): either the
+            # simulator kernel the blocks run on changed (Wire.put/prepare/settle, call order) or the model/dumper is wrong
+            det = {'what': 'the real simulator executing the Python method disagrees with PySem (Python\'s semantics of the method: prepare = last '
+                           'write wins, masked; put immediate; attributes immediate): kernel behaviour changed, or the source-side model / dumper is not faithful',
+                   'first_differing_row': d[0], 'column': d[1], 'pysem': d[2], 'python': d[3]}
+            if r.get('v') and r['v'][0] != 'elab' and d[0] < len(r['v'][0]) and d[1] < len(r['v'][0][d[0]]): det['verilog'] = r['v'][0][d[0]][d[1]]
+            return ('tie', det)
         if prog.sim_error is None and not prog.dump.unsupported and len(pyrows) != len(prog.trace):
             return ('tie', {'what': 'PySem stops (Python exception / unsupported) where the real simulator does not', 'pysem_rows': len(pyrows),
                             'real_rows': len(prog.trace)})
@@ -143,6 +148,10 @@ def judge(ctx, prog, r, stats):
     ndom = len(r['dom'][0])                             # rows 0..ndom-1 are inside the domain
     stats['in_domain_rows'] += ndom - 1
     limit = min(ndom, len(prog.trace))
+    if prog.dump.unsupported:
+        # the source contains a construct PySem gives no meaning to: the domain cannot be judged by PySem; an accepted translation is
+        # compared with the real execution on the whole history (it is a violation anyway: the construct had to be refused)
+        limit = len(prog.trace)
     d = L.first_diff(vrows, prog.trace, start=start, limit=limit)
     ctx.cov['disagreements_checked'] += max(0, limit - start)
     if r['tv'] is True:
@@ -275,13 +284,13 @@ def _run(ctx):
             ctx.violation({'what': 'cannot construct the repository block %s (width %d): %s' % (name, W, ex)}, found_input=False); continue
         progs.append(L.Program('%s/%d' % (name, W), hw, top, 'repo', recipe=['repo', name, W]))
     from props import c02_cases
-    for cname, widths in c02_cases.FINDINGS + c02_cases.CORNERS:
+    for cname, widths in c02_cases.FINDINGS + c02_cases.REFUSED + c02_cases.CORNERS:
         hw, top = build_case(cname, widths)
         progs.append(L.Program('%s%s' % (cname, list(widths)), hw, top, 'case', recipe=['case', cname, list(widths)]))
     bad += process(ctx, progs, 'C02_repo', stats)
     ctx.log('repository + hand-written programs: %d, not ok: %d' % (len(progs), bad))
     # 2. grammar-generated classes
-    n_plain, n_out, n_find = (90, 28, 21) if ctx.quick else (1500, 280, 220)
+    n_plain, n_out, n_find = (90, 36, 24) if ctx.quick else (1500, 288, 224)
     flav = ['plain'] * n_plain + ['out:' + G.OUT_KINDS[k % len(G.OUT_KINDS)] for k in range(n_out)] + \
            ['find:' + G.FIND_KINDS[k % len(G.FIND_KINDS)] for k in range(n_find)]
     os.makedirs(GEN_DIR, exist_ok=True)
